@@ -239,3 +239,81 @@ Section AGREE.
       auto.
   Qed.
 End AGREE.
+
+(* ------------------------------------------------------------------ inversion of a step by the kind of instruction *)
+Lemma is_jump_not_phi i : is_jump i = true -> is_phi i = false.
+Proof.
+  unfold is_phi, is_jump. intros H. destruct (String.eqb (i_op i) "phi") eqn:E; auto.
+  apply String.eqb_eq in E. rewrite E in H. discriminate.
+Qed.
+
+Section STEPINV.
+  Variable M : Type.
+  Variable osem : string -> list Z -> M -> list Z -> M -> Prop.
+  Variable lv : N -> Z.
+  Notation step := (step M osem lv).
+
+  Lemma step_pos' (h : func) b k p c m ev X : step h (Run b k p c m) ev X -> exists ins, nth_error (nth_block h b) k = Some ins.
+  Proof. intros Hs. inversion Hs; subst; eauto. Qed.
+
+  Lemma phi_step_inv (h : func) b k p c m ins ev X :
+    nth_error (nth_block h b) k = Some ins -> is_phi ins = true -> step h (Run b k p c m) ev X ->
+    exists q o v, p = Some q /\ i_outs ins = [o] /\ phi_src (i_args ins) q = Some v /\ ev = [] /\
+                  X = Run b (S k) p (upd c o (oval lv c v)) m.
+  Proof.
+    intros Hn Hp Hs. inversion Hs; subst; rewrite Hn in *;
+      match goal with [ H : Some _ = Some _ |- _ ] => inversion H; subst; clear H end; try congruence.
+    - do 3 eexists. repeat split; eauto.
+    - rewrite (is_jump_not_phi _ H12) in Hp. discriminate.
+  Qed.
+  Lemma phi_step (h : func) b k q c m ins o v :
+    nth_error (nth_block h b) k = Some ins -> is_phi ins = true -> i_outs ins = [o] -> phi_src (i_args ins) q = Some v ->
+    step h (Run b k (Some q) c m) [] (Run b (S k) (Some q) (upd c o (oval lv c v)) m).
+  Proof. intros. eapply s_phi; eauto. Qed.
+
+  Lemma inst_step_inv (h : func) b k p c m ins ev X :
+    nth_error (nth_block h b) k = Some ins -> is_phi ins = false -> is_jump ins = false -> step h (Run b k p c m) ev X ->
+    exists outv m', exec M osem lv ins c m outv m' ev /\ X = Run b (S k) p (upds c (i_outs ins) outv) m'.
+  Proof.
+    intros Hn Hp Hj Hs. inversion Hs; subst; rewrite Hn in *;
+      match goal with [ H : Some _ = Some _ |- _ ] => inversion H; subst; clear H end; try congruence.
+    eauto.
+  Qed.
+
+  Lemma jump_step_inv (h : func) b k p c m ins ev X :
+    nth_error (nth_block h b) k = Some ins -> is_jump ins = true -> step h (Run b k p c m) ev X ->
+    ev = [] /\ S k = List.length (nth_block h b) /\ exists t, In t (targets lv ins c) /\ X = Run t 0 (Some b) c m.
+  Proof.
+    intros Hn Hj Hs. pose proof (is_jump_not_phi _ Hj) as Hp. inversion Hs; subst; rewrite Hn in *;
+      match goal with [ H : Some _ = Some _ |- _ ] => inversion H; subst; clear H end; try congruence.
+    eauto.
+  Qed.
+
+  Lemma assign_exec ins v o c m : i_op ins = "assign" -> i_args ins = [v] -> i_outs ins = [o] ->
+    forall outv m' ev, exec M osem lv ins c m outv m' ev <-> (outv = [oval lv c v] /\ m' = m /\ ev = []).
+  Proof.
+    intros Ho Ha Hu outv m' ev. unfold exec. rewrite Ho, Ha, Hu. simpl. split.
+    - intros [_ H]. exact H.
+    - intros [H1 [H2 H3]]. subst. auto.
+  Qed.
+  Lemma assign_step_inv (h : func) b k p c m ins v o ev X :
+    nth_error (nth_block h b) k = Some ins -> i_op ins = "assign" -> i_args ins = [v] -> i_outs ins = [o] ->
+    step h (Run b k p c m) ev X -> ev = [] /\ X = Run b (S k) p (upd c o (oval lv c v)) m.
+  Proof.
+    intros Hn Ho Ha Hu Hs.
+    assert (Hp : is_phi ins = false) by (unfold is_phi; rewrite Ho; reflexivity).
+    assert (Hj : is_jump ins = false) by (unfold is_jump; rewrite Ho; reflexivity).
+    destruct (inst_step_inv _ _ _ _ _ _ _ _ _ Hn Hp Hj Hs) as [outv [m' [He HX]]].
+    apply (assign_exec ins v o c m Ho Ha Hu) in He as [H1 [H2 H3]]. subst. rewrite Hu. auto.
+  Qed.
+  Lemma assign_step (h : func) b k p c m ins v o :
+    nth_error (nth_block h b) k = Some ins -> i_op ins = "assign" -> i_args ins = [v] -> i_outs ins = [o] ->
+    step h (Run b k p c m) [] (Run b (S k) p (upd c o (oval lv c v)) m).
+  Proof.
+    intros Hn Ho Ha Hu.
+    assert (Hp : is_phi ins = false) by (unfold is_phi; rewrite Ho; reflexivity).
+    assert (Hj : is_jump ins = false) by (unfold is_jump; rewrite Ho; reflexivity).
+    change (upd c o (oval lv c v)) with (upds c [o] [oval lv c v]). rewrite <- Hu.
+    eapply s_inst; eauto. apply (assign_exec ins v o c m Ho Ha Hu). auto.
+  Qed.
+End STEPINV.
